@@ -153,11 +153,15 @@ def sweeps(ctx):
     per_rule = 3 if ctx.quick else 12
     # round-robin over the rules so that the first 11 sweeps (always completed) cover every rule name
     for j in range(per_rule):
-        for rule in rules:
+        for ri, rule in enumerate(rules):
             fam = dict(G8=1) if (rule in ('meek', 'warren') and j % 4 == 3) else dict(G1=2, G2=1, G3=1, G4=2, G7=1, G10=1)
             s = gen.pick(rng, fam, False)
             s['lines'] = s['lines'][:7 if ctx.quick else 10]
             gen.make_valid(s, rng)
+            if (j + ri) % 3 == 0:
+                # names that read like the package's own words or like format directives: the marker, the banner and the prefix
+                # relation are judged on the structure of the record, so a name can neither supply nor suppress them
+                s['names'] = gen.hostile_names(rng, s['nc'])
             opts = dict(rule=rule)
             if rule == 'wigm':
                 opts.update(rng.choice([dict(), dict(arithmetic='fixed', precision=5), dict(arithmetic='rational'), dict(defeat_batch='zero')]))
